@@ -89,6 +89,18 @@ class C13(Prop):
             for t in range(40 if thorough else 10):
                 ops = [[rng.randrange(4) for _ in range(n)] + [rng.randrange(4)] for _ in range(5)]
                 yield {"k": "paulis", "n": n, "ops": ops, "c": [[rng.randrange(2) for _ in ops] for _ in range(4)]}
+        # polynomials on wider registers whose strings share a long prefix / suffix (both packages must keep them apart)
+        for n in (13, 28, 30, 40, 66):
+            base = [3 if q == 0 else 0 for q in range(n)]
+            ops = [base + [0]]
+            for d in range(4):
+                w = list(base)
+                w[n - 1 - d] = 1 + d % 3
+                ops.append(w + [d % 4])
+            w = list(base)
+            w[0] = 1
+            ops.append(w + [0])
+            yield {"k": "widepoly", "n": n, "ops": ops}
         for t in range(60 if thorough else 20):
             nr, nc = rng.randrange(1, 7), rng.randrange(1, 7)
             yield {"k": "z2", "mat": [[rng.randrange(2) for _ in range(nc)] for _ in range(nr)]}
@@ -123,6 +135,13 @@ class C13(Prop):
             pair(fn, lambda: f(py), lambda: f(to), **info)
 
         k = scn["k"]
+        if k == "widepoly":
+            ops = scn["ops"]
+            cs = [1, 0.5, -1, 2, 0.25j, 3]
+            both("Polynomial.reduce(wide)", lambda B: B.poly(ops + ops[:2], cs + [1, 1]).reduce(), n=scn["n"])
+            both("Polynomial.__add__(wide)", lambda B: B.poly(ops[:3], cs[:3]) + B.poly(ops[2:], cs[2:]), n=scn["n"])
+            both("Polynomial.__sub__(wide)", lambda B: B.poly(ops[:4], cs[:4]) - B.poly(ops[3:], cs[3:]), n=scn["n"])
+            return out
         if k == "paulis":
             ops, n = scn["ops"], scn["n"]
             a, b = ops[0], ops[1]
